@@ -14,15 +14,15 @@ FILES = {
     "a816/cpu/cpu_65c816.py": ["C01", "C05", "C20", "C02", "C03"],
     "a816/writers.py": ["C11", "C12"],
     "a816/program.py": ["C03", "C12", "C14", "C13", "C02"],
-    "a816/symbols.py": ["C08", "C03", "C09", "C10", "C02", "C18", "C19", "C12"],
+    "a816/symbols.py": ["C08", "C03", "C04", "C05", "C20", "C09", "C10", "C02", "C18", "C19", "C12"],
     "a816/cli.py": ["C12", "C14"],
     "a816/parse/codegen.py": ["C09", "C10", "C08", "C03", "C02", "C13"],
     "a816/parse/nodes.py": ["C07", "C03", "C02", "C13", "C18", "C17", "C09"],
     "a816/parse/ast/expression.py": ["C06", "C01"],
     "a816/parse/scanner.py": ["C17", "C16", "C15", "C03"],
-    "a816/parse/scanner_states.py": ["C16", "C15", "C17", "C01", "C06", "C03"],
-    "a816/parse/parser_states.py": ["C01", "C16", "C09", "C10", "C03", "C06"],
-    "a816/parse/parser.py": ["C15", "C16", "C03"],
+    "a816/parse/scanner_states.py": ["C16", "C15", "C17", "C01", "C06", "C03", "C14"],
+    "a816/parse/parser_states.py": ["C01", "C16", "C09", "C10", "C03", "C06", "C14", "C15", "C17", "C13"],
+    "a816/parse/parser.py": ["C15", "C16", "C03", "C14"],
     "a816/parse/mzparser.py": ["C14", "C17", "C03"],
     "script/__init__.py": ["C18"],
     "script/formulas.py": ["C20"],
